@@ -62,9 +62,16 @@ package ledger
 // maxLogID: the largest log id present in the ledger (-1: none). A log inserted with an explicit id (import) must continue
 // the journal (requires, imposed from C08); the id of a log inserted without one is assigned by the database sequence
 // (assumed to be larger than every id present).
+// Store.InsertLog renders log.Data with json.Marshal; Transaction.MarshalJSON subtracts the postings from the post-commit
+// volumes and dereferences nil on a pair the volumes do not cover. A log that arrives with its id (an imported log) carries
+// client data: by the time it is inserted its volumes must be the recomputed ones (or absent).
+//@ define txVolsOK(tx ledger.Transaction) bool = (len(tx.PostCommitVolumes) == 0 || (wfPCV(tx.PostCommitVolumes) && postingsCovered(tx.PostCommitVolumes, tx.Postings))) && (len(tx.PostCommitEffectiveVolumes) == 0 || (wfPCV(tx.PostCommitEffectiveVolumes) && postingsCovered(tx.PostCommitEffectiveVolumes, tx.Postings)))
+//@ define logVolsOK(d ledger.LogPayload) bool = (is(d, ledger.CreatedTransaction) ==> txVolsOK(d.(ledger.CreatedTransaction).Transaction)) && (is(d, ledger.RevertedTransaction) ==> txVolsOK(d.(ledger.RevertedTransaction).RevertedTransaction) && txVolsOK(d.(ledger.RevertedTransaction).RevertTransaction))
+
 //@ assumed func (s Store) InsertLog(ctx context.Context, log *ledger.Log) (err error)
 //@   requires log != nil
 //@   requires log.ID != nil ==> deref(log.ID) > maxLogID
+//@   requires log.ID != nil ==> logVolsOK(log.Data)
 //@   modifies writes, lastUpsert, logs, log, maxLogID
 //@   ensures err == nil && old(log.ID) != nil ==> maxLogID == deref(old(log.ID))
 //@   ensures err == nil && old(log.ID) == nil ==> maxLogID > old(maxLogID)
@@ -81,6 +88,8 @@ package ledger
 //@   ensures writes == store(old(writes), s, old(writes)[s] + 1)
 //@   ensures transaction.Postings == old(transaction.Postings) && transaction.Metadata == old(transaction.Metadata) && transaction.Timestamp == old(transaction.Timestamp) && transaction.Reference == old(transaction.Reference) && transaction.Template == old(transaction.Template)
 //@   ensures err == nil ==> transaction.ID != nil
+//@   ensures err == nil ==> wfPCV(transaction.PostCommitVolumes) && postingsCovered(transaction.PostCommitVolumes, transaction.Postings)
+//@   ensures err == nil ==> transaction.PostCommitEffectiveVolumes == old(transaction.PostCommitEffectiveVolumes) || (wfPCV(transaction.PostCommitEffectiveVolumes) && postingsCovered(transaction.PostCommitEffectiveVolumes, transaction.Postings))
 
 //@ assumed func (s Store) RevertTransaction(ctx context.Context, id uint64, at time.Time) (tx *ledger.Transaction, modified bool, err error)
 //@   modifies writes, lastUpsert, lastRevertModified
